@@ -712,3 +712,89 @@ Section Top.
     rewrite <- Er0. symmetry. eapply run_a_erase; [|exact E1]. apply edi_step_a_erase.
   Qed.
 End Top.
+
+(* ---- errors and Reads after a terminal result issue no API call ---------------------------------------------------- *)
+Lemma of_ares_ret res rest a r o a' : of_ares res rest a r = Some (ARet o a') -> a' = a.
+Proof.
+  destruct res as [stk tgt ta sc|t|site]; simpl.
+  - destruct (exec_script sc r (a_ta a) (a_pending a)) as [[[r' ta'] pend']|]; simpl; [|discriminate].
+    destruct (opt_eqb Pos.eqb ta ta'); discriminate.
+  - intros H. inversion H. reflexivity.
+  - intros H. inversion H. reflexivity.
+Qed.
+
+Section Terminal.
+  Variable caching : bool.
+  Variable choose : st -> choice.
+  Variable nm : nat -> bytes.
+  Variable cols : nat -> list nat -> list (bytes * bytes).
+  Variable try_leaf : leaf -> list unt -> option nat.
+
+  Lemma instantiate_a_ret cur below n us root_ok a o a' :
+    instantiate_a caching choose nm cols cur below n us root_ok a = Some (ARet o a') -> a' = a.
+  Proof.
+    unfold instantiate_a. destruct (length us <? n); [intros H; inversion H; reflexivity|].
+    destruct below as [|p b].
+    - destruct root_ok; [|intros H; inversion H; reflexivity].
+      destruct (build _ _ _ _ _ _ _) as [body|]; cbn [obnd]; [|discriminate].
+      destruct (r_stack body) as [|[x cs] [|f rest]]; try discriminate.
+      destruct (d_kids (e_decl (fst cur))) as [|k kids]; [|discriminate].
+      destruct (go_up body) as [b1|]; cbn [obnd]; [|discriminate]. apply of_ares_ret.
+    - destruct (e_node (fst p)); [|intros H; inversion H; reflexivity].
+      destruct (snd p) as [parent|]; [|discriminate].
+      destruct (build _ _ _ _ _ _ _) as [body|]; cbn [obnd]; [|discriminate].
+      destruct (r_stack body) as [|[x cs] [|f rest]]; try discriminate.
+      destruct (attach _ _ _ _ _) as [r'|]; cbn [obnd]; [|discriminate].
+      destruct (d_kids (e_decl (fst cur))) as [|k kids]; [|discriminate]. apply of_ares_ret.
+  Qed.
+
+  (* whatever a step RETURNS (a delivery, EOF, an error, a panic of the model), it returns with the
+     state it was called in: the step that detects an error has issued no API call at all *)
+  Lemma hstep_a_ret a o a' : hstep_a caching choose nm cols try_leaf a = Some (ARet o a') -> a' = a.
+  Proof.
+    unfold hstep_a. destruct (a_tgt a); [intros H; inversion H; reflexivity|].
+    destruct (a_rest a) as [|u us].
+    - destruct (length (a_stk a) <=? 1); [intros H; inversion H; reflexivity|apply of_ares_ret].
+    - destruct (length (a_stk a) <=? 1); [intros H; inversion H; reflexivity|].
+      destruct (a_stk a) as [|cur below]; [intros H; inversion H; reflexivity|].
+      destruct (read_rec try_leaf (e_decl (fst cur)) (u :: us)); [apply instantiate_a_ret|apply of_ares_ret].
+  Qed.
+
+  Lemma edi_step_a_ret a o a' : edi_step_a caching choose nm cols try_leaf a = Some (ARet o a') -> a' = a.
+  Proof.
+    unfold edi_step_a. destruct (a_tgt a); [intros H; inversion H; reflexivity|].
+    destruct (a_rest a) as [|u us].
+    - destruct (length (a_stk a) <=? 1); [intros H; inversion H; reflexivity|apply of_ares_ret].
+    - destruct (a_stk a) as [|cur below]; [intros H; inversion H; reflexivity|].
+      destruct (read_rec try_leaf (e_decl (fst cur)) (u :: us)); [apply instantiate_a_ret|].
+      destruct (length (cur :: below) <=? 1); [intros H; inversion H; reflexivity|apply of_ares_ret].
+  Qed.
+End Terminal.
+
+(* Read again after a terminal result: the prologue finds no target to release and the step
+   returns the same terminal result in the same state - any number of times *)
+Fixpoint read_again (caching : bool) (step_a : hst -> option astep) (k : nat) (a : hst) : option (list term * hst) :=
+  match k with
+  | O => Some ([], a)
+  | S k' =>
+      obnd (clear_tgt_a caching a) (fun a1 =>
+      obnd (step_a a1) (fun s =>
+      match s with
+      | ARet (OTerm e) a2 => obnd (read_again caching step_a k' a2) (fun res => Some (e :: fst res, snd res))
+      | _ => None
+      end))
+  end.
+
+Lemma read_again_stable caching step_a :
+  (forall a o a', step_a a = Some (ARet o a') -> a' = a) ->
+  forall a e, HInv caching a -> a_tgt a = None -> step_a a = Some (ARet (OTerm e) a) ->
+  forall k, read_again caching step_a k a = Some (repeat e k, a).
+Proof.
+  intros Hret a e Hinv Ht Hstep.
+  assert (Hta : a_ta a = None).
+  { destruct Hinv as [_ (_ & _ & _ & _ & _ & _ & P2 & _)]. exact (P2 Ht). }
+  assert (Hclear : clear_tgt_a caching a = Some a).
+  { unfold clear_tgt_a. rewrite Hta. destruct a; simpl in *. subst. reflexivity. }
+  induction k as [|k IH]; simpl; [reflexivity|].
+  rewrite Hclear. simpl. rewrite Hstep. simpl. rewrite IH. reflexivity.
+Qed.
